@@ -21,8 +21,10 @@ pub struct Shapes {
     items: Vec<String>,
     #[deb822(field = "Priority")]
     prio: Option<Priority>,
-    // (options split over two attributes: both apply)
+    // (options split over two attributes, with a doc comment and another attribute between them: all apply)
     #[deb822(field = "Flag")]
+    /// whether the thing is flagged
+    #[allow(dead_code)]
     #[deb822(serialize_with = ser_flag, deserialize_with = de_flag)]
     flag: Option<bool>,
     #[deb822(field = "Note")]
